@@ -956,7 +956,7 @@ Proof.
   apply IH in Hg. rewrite get_del in Hg. destruct (_ && _); [discriminate|exact Hg].
 Qed.
 
-Lemma clean_core w tip : Core w -> Core (clean_old_unconfirmed w tip).
+Lemma clean_core w parent tip : Core w -> Core (clean_old_unconfirmed w parent tip).
 Proof.
   intros Hc. unfold clean_old_unconfirmed. destruct (tip <? 50); [exact Hc|].
   pose proof Hc as [Hs Hb Hh Hi Ho Hoo Hoi].
@@ -1318,7 +1318,7 @@ Lemma refresh_uniq w parent all tip p km :
   LogSorted w -> LogBelow w -> Uniq (w_log w) -> Uniq (w_log (refresh w parent all tip p km)).
 Proof.
   intros Hs Hb Hu. unfold refresh.
-  assert (Hclean : forall w0, w_log (clean_old_unconfirmed w0 tip) = w_log w0).
+  assert (Hclean : forall w0, w_log (clean_old_unconfirmed w0 parent tip) = w_log w0).
   { intros w0. unfold clean_old_unconfirmed. destruct (tip <? 50); reflexivity. }
   rewrite Hclean. unfold refresh_apply.
   set (qs := refresh_set w parent all). set (rev := reverted_ids w parent qs p km).
